@@ -116,6 +116,15 @@ def reachable_returns(fn):
     return [n for n in cfg.find(is_return) if n.id in live]
 
 
+def follow_copy(fn, e, hops=4):
+    """rv = E; return rv  ->  E (only through names with a single definition)."""
+    defs = def_exprs(fn)
+    for _ in range(hops):
+        if isinstance(e, ast.Name) and len(defs.get(e.id, [])) == 1 and e.id not in fn.params:
+            e = defs[e.id][0]
+    return e
+
+
 def flat_add(e):
     out = []
 
@@ -561,7 +570,7 @@ def run(ctx: Context):
     pnorm = FlowNorm(pack)
     pdefs = def_exprs(pack)
     appends = [c for c in calls_in_func(pack, "append")]
-    rets = [n.ast.value for n in reachable_returns(pack) if n.ast.value is not None]
+    rets = [follow_copy(pack, n.ast.value) for n in reachable_returns(pack) if n.ast.value is not None]
     if len(rets) != 1 or not is_const_join(rets[0]) or not isinstance(rets[0].args[0], ast.Name):
         raise AnchorVanished("_pack_normalized_children no longer returns <sep>.join(<list>)")
     outer_list = rets[0].args[0].id
@@ -820,6 +829,7 @@ def run(ctx: Context):
         eret = [n.ast.value for n in reachable_returns(enc) if n.ast.value is not None]
         if len(eret) != 1:
             raise AnchorVanished("_encrypt_rw_uri has %d return values" % len(eret))
+        eret = [follow_copy(enc, eret[0])]
         parts = flat_add(eret[0])
         proles = []
         for p in parts:
@@ -930,9 +940,15 @@ def run(ctx: Context):
                     if isinstance(a0, ast.Name) and a0.id not in f.params:
                         conts.add(a0.id)
             if f.name == "_unpack_contents":
+                fdefs = def_exprs(f)
                 for n in reachable_returns(f):
-                    if isinstance(n.ast.value, ast.Name):
-                        conts.add(n.ast.value.id)
+                    v = n.ast.value
+                    for _hop in range(4):          # rv = children; return rv
+                        if isinstance(v, ast.Name):
+                            conts.add(v.id)
+                            ds = [d for d in fdefs.get(v.id, []) if isinstance(d, ast.Name)]
+                            if len(ds) == 1 and len(fdefs.get(v.id, [])) == 1:
+                                v = ds[0]
             if not conts:
                 continue
             fnm = FlowNorm(f)
@@ -1113,7 +1129,7 @@ def run(ctx: Context):
         for n in reachable_returns(sp):
             v = n.ast.value
             r.site(sp, n.ast, "strip return")
-            if isinstance(v, ast.Name) and v.id == p0:
+            if v is not None and sn.norm(n, v) == p0:
                 continue
             m = re.match(r"^%s\[len\((\w+)\):\]$" % re.escape(p0), sn.norm(n, v) if v is not None else "")
             if not m:
@@ -1136,7 +1152,7 @@ def run(ctx: Context):
             on_imm = not find_path_avoiding(scfg, lambda x, _n=n: x is _n, gate_edge=imm)
             if not on_imm:
                 continue
-            unchanged = isinstance(v, ast.Name) and v.id == p0
+            unchanged = v is not None and sn.norm(n, v) == p0
             want = ("false" if unchanged else "truth", "deep_immutable", None)
             for (t, w) in find_path_avoiding(scfg, lambda x, _n=n: x is _n, gate_edge=lambda x, lab, _w=want: sn.edge_fact(x, lab) == _w):
                 r.violation(sp, sp.loc(t.ast), "'imm.' prefix is %s without the matching deep_immutable test"
@@ -1461,6 +1477,9 @@ def run(ctx: Context):
         for n in reachable_returns(unp):
             v = n.ast.value
             r.site(unp, n.ast, "return")
+            for _hop in range(4):              # follow plain copies (rv = children; return rv)
+                if isinstance(v, ast.Name) and v.id not in conts and len(udefs.get(v.id, [])) == 1:
+                    v = udefs[v.id][0]
             if isinstance(v, ast.Name) and v.id in conts:
                 continue
             empty_ctor = (isinstance(v, ast.Call) and not v.args and not v.keywords) or \
